@@ -1786,6 +1786,11 @@ def isinstance_z(E, v, cname):
     t = v.ty
     if t == "none":
         return z3.BoolVal(False)
+    if isinstance(t, tuple) and t[0] == "obj" and "|" in t[1]:
+        # a union of unrelated classes: decided by the object's kind (root class), a fact that no heap write changes
+        alts = [c_ for c_ in t[1].split("|") if is_subclass(E, c_, cname)]
+        k = z3.Function("kind", I, I)(v.z)
+        return z3.And(v.z != 0, z3.Or(*[k == atom("kind:" + E.kind_name(("obj", c_))) for c_ in alts])) if alts else z3.BoolVal(False)
     if isinstance(t, tuple) and t[0] == "obj":
         if is_subclass(E, t[1], cname):
             return v.z != 0
